@@ -71,6 +71,11 @@ def rule_affine(ctx):
             for c, p, o in symeval.pc_conds_full(r.pc):
                 if o != "raise":
                     A.ty(c)
+        # decisions taken inside loops (accumulators, stores): their conditions are typed as well
+        for m in s.by_kind("mutate"):
+            for c, p, o in symeval.pc_conds_full(m.pc):
+                if o != "raise":
+                    A.ty(c)
         # values stored into results / passed on: every call argument that carries times
         for c in s.calls():
             if c.fn is not None and c.fn.op in ("func", "localfunc") and not (c.callee or "").split(".")[-1].startswith("validate"):
